@@ -239,9 +239,12 @@ use crate::monitor::{monitor_register, Mon};
 /// Execution with the step/frame monitors attached. Panics inside the EVM are caught and reported
 /// as a `Fatal` outcome with the panic message.
 pub fn exec_monitored(case: &TxCase, record_steps: bool) -> (Outcome, Mon, u64) {
+    exec_monitored_cfg(case, Mon::new(record_steps))
+}
+pub fn exec_monitored_cfg(case: &TxCase, mon: Mon) -> (Outcome, Mon, u64) {
     let db = to_cachedb(&case.world);
     let spec = case.spec();
-    let b = Evm::builder().with_db(db).with_external_context(Mon::new(record_steps)).with_env(case.env()).with_spec_id(spec);
+    let b = Evm::builder().with_db(db).with_external_context(mon).with_env(case.env()).with_spec_id(spec);
     let b = if case.reward { b } else { b.with_handler(Handler::mainnet_with_spec(spec, false)) };
     let mut evm = b.append_handler_register(monitor_register).build();
     let r = crate::fw::catch(|| evm.transact());
